@@ -181,7 +181,10 @@ impl Search {
             Outcome::Timeout => ("timeout", String::new()),
             _ => return,
         };
-        *self.sig_count.entry(skip_key).or_default() += 1;
+        if kind == "timeout" {
+            // only hangs are expensive to repeat; crashes answer at once (InternalError) and are all recorded
+            *self.sig_count.entry(skip_key).or_default() += 1;
+        }
         let loc = detail.rsplit(" @ ").next().unwrap_or("").to_string();
         let signature = format!("no-response|{}|{}|{}", method, class, if kind == "panic" { loc } else { "hang".to_string() });
         self.viol.push(json!({
@@ -284,9 +287,10 @@ fn main() {
             let size = args.usize("size", 4);
             let corpus = args.str("corpus", "");
             let docs = documents(&mut rng, n, size, &corpus);
-            let srv = Server::start("c25", json!({}), &[]);
+            let lib = vec![("lib/util.lua".to_string(), "local M = {}\n---@param s string\n---@return string\nfunction M.trim(s) return s end\nreturn M\n".to_string())];
+            let srv = Server::start("c25", json!({}), &lib);
             let mut s = Search { srv, viol: vec![], sig_count: HashMap::new(), tags: BTreeMap::new(), classes: BTreeMap::new(), requests: 0,
-                                 timeout: Duration::from_secs(args.u64("timeout", 30)) };
+                                 timeout: Duration::from_secs(args.u64("timeout", 120)) };
             let mut distinct: HashSet<u64> = HashSet::new();
             let mut modes: BTreeMap<String, u64> = BTreeMap::new();
             let mut ndocs = 0;
@@ -304,11 +308,16 @@ fn main() {
                     break;
                 }
             }
+            let mut per_sig: HashMap<String, usize> = HashMap::new();
             for v in &s.viol {
-                println!("{}", v);
+                let n = per_sig.entry(v["signature"].as_str().unwrap_or("").to_string()).or_default();
+                *n += 1;
+                if *n <= 3 {
+                    println!("{}", v);
+                }
             }
             println!("{}", json!({"summary": {"documents": ndocs, "requests": s.requests, "distinct_nontrivial": distinct.len(),
-                "documents_by_kind": modes, "responses_by_method": s.tags, "requests_by_position_class": s.classes,
+                "documents_by_kind": modes, "responses_by_method": s.tags, "requests_by_position_class": s.classes, "violations_by_signature": per_sig.iter().collect::<BTreeMap<_, _>>(),
                 "panics_recorded": drv::panic_count(), "panic_messages": drv::PANICS.lock().map(|p| p.iter().cloned().collect::<std::collections::BTreeSet<_>>()).unwrap_or_default()}}));
             s.srv.cleanup();
             std::process::exit(0);
@@ -354,7 +363,8 @@ fn main() {
             let method = args.str("method", "textDocument/hover");
             let p = (args.u64("line", 0) as u32, args.u64("character", 0) as u32);
             let q = (args.u64("line2", p.0 as u64) as u32, args.u64("character2", p.1 as u64) as u32);
-            let mut srv = Server::start("c25one", json!({}), &[]);
+            let lib = vec![("lib/util.lua".to_string(), "local M = {}\n---@param s string\n---@return string\nfunction M.trim(s) return s end\nreturn M\n".to_string())];
+            let mut srv = Server::start("c25one", json!({}), &lib);
             let uri = srv.open("one.lua", &text);
             let out = srv.request(&method, params_for(&method, &uri, p, q), Duration::from_secs(30));
             let alive = srv.alive();
